@@ -14,6 +14,7 @@ from .base import PropBase, STD, exec_args, gen_run, plan_of, not_meta, crashed,
 SIMADDON = os.path.join(core.VERIF, "sim", "simaddon.py")
 SEVS = ["error", "warning", "style", "performance", "portability", "information"]
 ODD_SEVS = ["none", "debug", "internal", "critical", "", "Error"]
+APATHS = ["../", "./../", ".././", "././../"]   # spellings of the directory holding the addon .json files (cwd is <wd>/tree)
 TEXTS = ["plain message", "with \"quotes\" and 'apostrophes'", "xml <tag> & entity", "utf8 äöü 中文", "tab\there", "semi;colon:colon",
          "percent %s %d", "backslash \\ end", "x" * 10000, "trailing space ", "{curly} [square]"]
 
@@ -154,8 +155,13 @@ class C34(PropBase):
         if rng.chance(0.15):
             suppr.append("--suppress=adda-*:%s" % rng.choice(units))
         runs = [gen_run(rng, execs=("j1", "thread", "process"), maxjobs=4) for _ in range(rng.randint(1, 2))]
+        bd = rng.chance(0.5)
+        # cppcheck keeps the --addon arguments in a std::unordered_set: the order in which the addons of a unit run is the
+        # hash order of the argument strings. The spelling of the (relative) path is therefore part of the scenario - it is
+        # the only handle on that order - and must not depend on the scratch directory.
+        apath = {a: rng.below(len(APATHS)) for a in ("adda", "addb")}
         return {"tree": proj["tree"], "units": units, "langs": proj["langs"], "opts": opts, "suppr": suppr, "addons": addons, "ctu": ctu,
-                "plan": plan, "runs": runs, "bd": rng.chance(0.5)}
+                "plan": plan, "runs": runs, "bd": bd, "apath": apath}
 
     # ------------------------------------------------------------------ reference model
     @staticmethod
@@ -181,7 +187,7 @@ class C34(PropBase):
             jp = os.path.join(wd, a + ".json")
             with open(jp, "w") as f:
                 json.dump({"executable": SIMADDON, "args": ["--name=" + a], "ctu": bool(scn["ctu"][a])}, f)
-            aargs.append("--addon=" + jp)
+            aargs.append("--addon=" + APATHS[scn.get("apath", {}).get(a, 0)] + a + ".json")
         oargs = gen.flatten_opts(scn.get("opts", {})) + list(scn.get("suppr", []))
         en = enabled_severities(scn.get("opts", {}))
         for ri, run in enumerate(scn["runs"]):
@@ -218,12 +224,18 @@ class C34(PropBase):
                     # internalError): a malformed-typed line of any addon makes the whole unit's relaying ambiguous.
                     ambiguous = any(any(k in ("wrong-type", "missing-fields") for k in scn["plan"][a2][u].get("kinds", [])) or scn["plan"][a2][u].get("tail") is not None
                                     for a2 in scn["addons"])
-                    others_fail = any(a2 != a and (scn["plan"][a2][u].get("exit") or scn["plan"][a2][u].get("signal") or "nonjson" in scn["plan"][a2][u].get("kinds", []))
-                                      for a2 in scn["addons"])
+                    # ... and an addon that comes later in the (hash) order is then not invoked at all for that unit: a failing
+                    # script of addon a is only played if no *other* addon's malformed-typed line ended the phase before it.
+                    others_raise = any(a2 != a and any(k in ("wrong-type", "missing-fields") for k in scn["plan"][a2][u].get("kinds", []))
+                                       for a2 in scn["addons"])
                     mine = [f for f in addon_fs if f.id.startswith(a + "-") and f.id != a + "-echo" and f.file0 == u]
                     ie = [f for f in internal if f.locs and f.locs[0][0] == u and (("--name=%s " % a) in f[5] or ("'%s.json'" % a) in f[5] or ("--name=%s " % a) in f.msg or ("'%s.json'" % a) in f.msg)]
                     if failing:
-                        if not ie:
+                        if not ie and others_raise and any(f.locs and f.locs[0][0] == u for f in internal):
+                            # the unit did end in an internal error (raised while another addon's objects were converted); whether
+                            # addon a was invoked before that depends on the unspecified addon order
+                            out.probe("failing_addon_after_raising_addon")
+                        elif not ie:
                             out.violate("no-internal-error", "failing addon invocation not reported as internalError (%s)" % ("exit status" if sc.get("exit") else "signal" if sc.get("signal") else "non-JSON output"),
                                         ["%s: addon %s on %s fails (exit=%s signal=%s kinds=%s) but no internalError names %s" % (how, a, u, sc.get("exit"), sc.get("signal"), kinds, u)], ids="noie")
                         if mine:
